@@ -11,6 +11,7 @@ import datetime
 from typing import Any, Dict, List, Optional
 
 from vf import common, sentinel, vclock
+from vf.dispx import bt
 from vf.common import Context, Plan, ShardResult, Violation
 
 LEVELS = {"C15": "exploration"}
@@ -148,7 +149,7 @@ class Run:
                         if dur:
                             await asyncio.sleep(dur)
                         if fail:
-                            raise RuntimeError("job fails")
+                            raise bt.failure("job fails", jid)
                     finally:
                         run.inflight -= 1
                         run.rows.append((vt(), "job", jid, "end", vt_of(when), True))
@@ -180,7 +181,7 @@ class Run:
                         if e.dur:
                             await asyncio.sleep(e.dur)
                         if hi == 0 and e.eid % 5 == 3:
-                            raise RuntimeError("handler fails")      # must not affect the other handler / later items
+                            raise bt.failure("handler fails", e.eid)      # must not affect the other handler / later items
                     finally:
                         run.inflight -= 1
                         run.rows.append((vt(), "ev", (e.eid, hi), "end", vt_of(e.when), True))
